@@ -1,7 +1,7 @@
 (* C09.2: the classification of the ways loop_forever ends (from the invariant of Link/BackoffRetries.v) *)
 From PahoV Require Import Base.Prelude Link.Backoff Link.BackoffProofs Link.BackoffU Link.BackoffRetries.
 
-Theorem retries_partial : forall cfg t0 script, downgrade_then_refused script = false ->
+Theorem retries : forall cfg t0 script,
   let r := run_script cfg t0 script in
   match fst (snd r) with
   | PcDone REnd => True
@@ -10,15 +10,15 @@ Theorem retries_partial : forall cfg t0 script, downgrade_then_refused script = 
   | _ => False
   end.
 Proof.
-  intros cfg t0 script Hdtr r.
+  intros cfg t0 script r.
   pose proof (run_script_done cfg t0 script) as Hdone. fold r in Hdone.
   destruct (run_inv cfg ss (fun p s c => invR cfg script p s c = true)) with
     (fuel := fuel_for script) (p := PcFirst) (s := binit t0 script) (c := false) as (c' & E & HI).
   - intros p s c HI Hd. pose proof (R_step cfg script p s c HI Hd) as H.
     destruct (chk ss c (st_evs (step cfg p s))) as [c1|]; [|discriminate].
     exists c1. split; [reflexivity|exact H].
-  - unfold invR, binit, should_exit, ret_ok. bproj. cbn [is_pending is_nosock is_async disc_like is_inner is_first dtr_ok].
-    rewrite Hdtr. destruct (c_rof cfg), (first_is_refused script); reflexivity.
+  - unfold invR, binit, should_exit, ret_ok. bproj. cbn [is_pending is_nosock is_async disc_like is_inner is_first].
+    destruct (c_retry_first cfg), (first_is_refused script); reflexivity.
   - fold (run_script cfg t0 script) in E, HI. fold r in E, HI.
     rewrite has_act_chk in E. cbn [orb] in E. inv E.
     unfold invR in HI. repeat (apply andb_true_iff in HI; destruct HI as (HI & ?)).
